@@ -546,3 +546,21 @@ val stmt_ok : program -> stmt -> bool
 val wf_program : program -> bool
 
 val ctr_arity : (fname -> bool) -> fname -> func list -> bool
+
+type pset = var list
+
+val pmem : var -> pset -> bool
+
+val premove : var -> pset -> pset
+
+val pinter : pset -> pset -> pset
+
+val cond_prot : cond -> pset -> (pset * pset) * bool
+
+val assigned : stmt -> var list
+
+val opt_inter : pset option -> pset option -> pset option
+
+val stmt_prot : stmt -> pset -> pset option * bool
+
+val guarded : program -> bool
